@@ -118,6 +118,22 @@ func (k *checker) judge(q request, out outcome) {
 		k.report(key(srv, res.Level, form, "panic "+fw.PanicSite(out.stack)), "handler panicked: "+out.Panic, q, out, out.stack)
 		return
 	}
+	// A CalDAV/CardDAV path in the other trailing-slash spelling than the
+	// backend's: the statement does not say whether it addresses the resource.
+	// Any refusal and a 207 without a response are left open; a 207 that
+	// answers about resources is judged as the answer about that resource.
+	respelled := (srv == srvCal || srv == srvCard) && q.Path != res.Path
+	if respelled {
+		c.Distinct(fmt.Sprintf("%s|%s|respelled|%s|%s", srv, res.Level, form, depthClass(q)))
+		if out.Status != 207 {
+			c.Observe("dont-care", fmt.Sprintf("%s %s in the other trailing-slash spelling -> %d", srv, res.Level, out.Status), 1)
+			return
+		}
+		if ms, err := davx.ReadMultiStatus([]byte(out.Body)); err == nil && len(ms.Responses) == 0 {
+			c.Observe("dont-care", fmt.Sprintf("%s %s in the other trailing-slash spelling -> 207 without a response (form=%s)", srv, res.Level, form), 1)
+			return
+		}
+	}
 	// --- requests that must be refused ---
 	switch q.Form {
 	case "none":
@@ -224,6 +240,9 @@ func (k *checker) judge(q request, out outcome) {
 		got := map[int]int{}
 		for i, r := range ms.Responses {
 			idx := e.lookup(r.Paths[0])
+			if idx < 0 && respelled && r.Paths[0] == q.Path {
+				idx = q.Target // the addressed resource under the request's spelling
+			}
 			idxOf[i] = idx
 			switch {
 			case idx == belowLink && (depth == "infinity"):
@@ -322,7 +341,7 @@ func (k *checker) nameSig(q request) string {
 		}
 		return n
 	}
-	return fmt.Sprintf("k%d,u%d,f%d,e%d,dup=%v", cap3(cnt["known"]), cap3(cnt["unknown"]), cap3(cnt["foreign"]), cap3(cnt["no-namespace"]), dup)
+	return fmt.Sprintf("k%d,u%d,f%d,e%d,dup=%v,filled=%v", cap3(cnt["known"]), cap3(cnt["unknown"]), cap3(cnt["foreign"]), cap3(cnt["no-namespace"]), dup, len(q.Fill) > 0)
 }
 
 func emptyElement(n *xmltree.Node) bool {
@@ -434,6 +453,17 @@ func (k *checker) account(q request, out outcome, idx int, resp *davx.Response, 
 		for _, n := range q.Names {
 			times[name(n[0], n[1])]++
 		}
+		// A data property named with content (comp / prop children select a
+		// part of the object): which part comes back is left open.
+		partial := map[string]bool{}
+		for i, f := range q.Fill {
+			if f != "" && i < len(q.Names) {
+				c.Observe("filled-names", fmt.Sprintf("%s %s %s", srv, nameClass(q.Names[i]), f), 1)
+				if n := name(q.Names[i][0], q.Names[i][1]); n == name(nsCal, "calendar-data") || n == name(nsCard, "address-data") {
+					partial[n] = true
+				}
+			}
+		}
 		// A requested name in no namespace that comes back as an empty 404
 		// element in the DAV: namespace is one anomaly of its own; take those
 		// answers out so that the rest of the accounting is judged by itself.
@@ -497,7 +527,7 @@ func (k *checker) account(q request, out outcome, idx int, resp *davx.Response, 
 				case self:
 					k.report(key(srv, res.Level, form, fmt.Sprintf("property-under-%d", a.code)), fmt.Sprintf("%s: %s answered under %d", where, n, a.code), q, out, n)
 				case avail && a.code == 200:
-					if v, ok := ref.values[n]; ok && v != a.node.Canon(xmltree.CmpOpts{}) {
+					if v, ok := ref.values[n]; ok && !partial[n] && v != a.node.Canon(xmltree.CmpOpts{}) {
 						k.report(key(srv, res.Level, form, "value-differs-from-allprop"), fmt.Sprintf("%s: value of %s differs from the resource's allprop answer", where, n), q, out, n)
 					}
 				case avail && a.code >= 500 && k.openStatus(resp, n):
@@ -656,7 +686,14 @@ func (k *checker) reference(idx int) *reference {
 				continue
 			}
 			ref.values[n] = p.Canon(xmltree.CmpOpts{})
-			if chk, has := res.Required[n]; has && chk != nil && !chk(p) {
+			chk, has := res.Required[n]
+			if !has {
+				chk, has = res.Values[n]
+				if has {
+					c.Observe("value-checks", fmt.Sprintf("%s %s %s", srv, res.Level, localOf(n)), 1)
+				}
+			}
+			if has && chk != nil && !chk(p) {
 				good = false
 				k.report(key(srv, res.Level, "allprop", "wrong-value "+localOf(n)),
 					fmt.Sprintf("allprop on %q: value of %s does not match the backend's content", res.Path, n), qa, outa, n)
@@ -688,6 +725,23 @@ func runEnv(c *fw.Ctx, i int) {
 	}
 	defer e.close()
 	c.Observe("worlds", fmt.Sprintf("%s resources<=%d", w.Server, bucket(len(e.res))), 1)
+	var mods []modSpec
+	for _, f := range w.Files {
+		if !f.Dir && f.Link == "" {
+			mods = append(mods, f.modSpec)
+		}
+	}
+	if w.Dav != nil {
+		for _, o := range w.Dav.Objs {
+			mods = append(mods, o.modSpec)
+		}
+	}
+	for _, m := range mods {
+		c.Observe("modification-times", w.Server+" "+m.class(), 1)
+	}
+	if len(e.modOff) > 0 {
+		c.Observe("dont-care", "fs-local: the file system did not store the modification time as given (presence only)", len(e.modOff))
+	}
 	k := &checker{c: c, e: e}
 	// One target of every level present, then random ones.
 	var targets []int
@@ -763,22 +817,28 @@ func init() {
 		Run:    c11Run,
 		Replay: c11Replay,
 		Rule: "worlds are drawn per index from (seed): file trees (webdav.Handler over LocalFileSystem on a generated directory - 70% of them with 1-4 symbolic links to directories, to files and dangling, relative targets inside the tree, at the top level and in sub-collections, named to sort among their siblings - and over the in-memory FS with arbitrary metadata), " +
-			"CalDAV/CardDAV backends with 0-5 collections x 0-6 objects with/without optional metadata under 6 prefixes, and ServePrincipal options; per world every level present is addressed " +
+			"CalDAV/CardDAV backends with 0-5 collections x 0-6 objects with/without optional metadata under 6 prefixes, and ServePrincipal options; " +
+			"modification times of files and objects: half recent, three in ten from a list of boundary instants (the Unix epoch and its neighbours, ends of a minute/day, 32-bit limits, leap day, 2000, 1900, 1601, 9999-12-31T23:59:59Z), two in ten anywhere in 1902..2106 (fs-local, set with os.Chtimes) or 1601..9999 (doubles), a third with a sub-second part, the doubles' in a zone of their own (a third) or with a monotonic reading (an eighth), and the zero time.Time (doubles: no modification time) in UTC or a zone; per world every level present is addressed " +
 			"6 times plus 12-24 random targets; each request draws Depth {0,1,infinity,absent,invalid}, a form {prop with 0-8 names from known+unknown+foreign+no-namespace pools with duplicates and shuffles, " +
 			"allprop, propname, empty body, empty body with XML Content-Type, none-of-the-three, foreign-namespace form element, malformed, body of only white space / XML declaration / BOM} and a random lexical rendering; " +
+			"one named property element in five of a prop request is not empty (text, white space, attributes, xml:lang, nested elements with known / the same / foreign names, CALDAV:comp and CARDDAV:prop selections, a comment, twelve levels of nesting); " +
+			"one CalDAV/CardDAV request in eight below the root spells the path with the other trailing slash than the backend's; " +
 			"a quarter of the file-server member names look like implementation artefacts (.webdav-put-*, .DS_Store, .git, ~x, x~, .#x, #x#, lost+found, '...', '.. ', dot names, 150-200 byte names); " +
 			"every request without a document in its body is repeated in every in-process body framing (unknown length, one-byte reads, known length with a non-NoBody reader) and in two of four hand-written framings over a real TCP connection (Content-Length, no length header, chunked, one-byte chunks), 30% of the other requests in one framing, and the answer must equal the plain-framing answer; " +
 			"every resource answered about is first asked for its own Depth-0 propname and allprop (reference, also checked against the double's content). " +
 			"distinct_nontrivial counts distinct (server, level, form, depth class, name-class signature, scope size bucket) of requests that were decided.",
 		Assumptions: []string{
 			"'available' for a resource is defined by its own Depth-0 propname answer, which in turn must list resourcetype and every property the double's content provides (tag, instant, length, MIME type, display name, description, size limit, principal, home set)",
+			"a file or object has getlastmodified iff its backend reports a modification time other than the zero time.Time (whatever instant, zone, sub-second part or monotonic reading; a file of the local file system always has one); its value is that instant as an HTTP-date; where the file system did not store the instant given to os.Chtimes (checked with os.Lstat) only presence is owed",
 			"scope is computed from the world specification (parent links of the generated tree / principal -> home set -> collections -> objects), never from the library",
 			"hrefs are compared after percent-decoding; file servers: dot segments resolved (RFC 3986) and a collection may carry or lack a trailing slash; CalDAV/CardDAV: the backend's own path exactly",
 			"don't-care: empty <prop/>; empty body with an XML Content-Type (400 or allprop); CalDAV/CardDAV root answered with a single response labelled with the request path or the principal's path for any Depth; invalid Depth on ServePrincipal (400 or Depth-0 answer)",
 			"symbolic links (fs-local): every directory entry of the addressed collection, whatever its kind, is a member in scope exactly once; how a link is described (file or collection, which properties and values) is don't-care (only the answer's own consistency is judged: each requested name once, 200 or 404, 404 empty); answers below a link to a directory are don't-care at Depth infinity; a dangling link may be listed or omitted; links are never addressed themselves",
 			"RFC 4918 section 9.1: the answer to a PROPFIND is a function of the request, not of how its body is framed (known or unknown length, chunk sizes, read granularity); a reader that returns (0, nil) before delivering is only used for bodies with content; a body of only white space, an XML declaration or a BOM may be refused (4xx) or taken as empty (allprop), in each framing on its own; a malformed body (among them one to three bytes of junk with and without a Content-Type) must be refused in every framing",
 			"wire exchanges that fail as I/O (never seen) are inconclusive, not findings; no oracle depends on time",
-			"requested property elements are empty, so the prop and allprop values of one resource must coincide",
+			"the prop and allprop values of one resource must coincide; a property element named with content is named all the same and what is nested in it is not a property name; only for calendar-data / address-data named with content is the value left open (a part of the object may be selected)",
+			"CalDAV/CardDAV values checked when answered under 200 by the resource's own allprop (presence not demanded): supported-calendar-component-set = the backend's list when it gives one (any order), getcontenttype of objects = text/calendar / text/vcard (parameters aside), calendar-data / address-data holds the UID line of that very object (not judged for objects with characters XML cannot carry or that the encoder refuses)",
+			"a CalDAV/CardDAV path in the other trailing-slash spelling than the backend's may be refused (any non-207) or answered 207 without a response, whatever the request; a 207 with responses is judged as the answer about that resource, whose own href may then be spelled as requested",
 			"Depth values used as valid are exactly 0, 1, infinity; invalid ones are clearly outside the grammar (no case or white-space variants)",
 		},
 		MinEvals:    func(t string) int64 { return map[bool]int64{false: 50000, true: 1500000}[t == "thorough"] },
